@@ -44,7 +44,7 @@ PROFILES = [
     ("fmm", [{"family": "laplace", "op": "single_layer"}, {"family": "helmholtz", "op": "single_layer", "wavenumber": H}, {"family": "modified_helmholtz", "op": "single_layer", "wavenumber": 1.3}], ["P1", "DP0"], ["P1", "DP0"]),
 ]
 
-GRID_FAMILIES = ["tetrahedron", "octahedron", "cube", "screen2", "lshape", "torus", "fan", "two_tetrahedra", "screen1"]
+GRID_FAMILIES = ["tetrahedron", "octahedron", "cube", "screen2", "lshape", "torus", "fan", "two_tetrahedra", "screen1", "pinched", "moebius"]
 ALL_KINDS = ["DP0", "DP1", "P1", "RWG", "SNC", "DUAL0", "DUAL1", "BC", "RBC"]
 
 
